@@ -141,6 +141,12 @@ CLAIMED = {
             'covers every candidate and the trial asserts exactly the later candidates; the background is asserted before the first trial and, in named mode, consists of every '
             'current assertion not known to the name registry.',
             'static analysis: path-sensitive typestate walk of one loop iteration (push depth, verdict, keep/drop) + loop-range and selection rules over the mini-AST', ''),
+    'C09': ('other',
+            'Static, the mask protocol only (that the returned formulas are interpolants and chain by implication is a statement about run-time formulas and is not decided): '
+            'Interpret::getInterpolants builds the A-masks of a sequence request cumulatively - one mask variable that lives across the group loop, only gains bits, and is appended '
+            'exactly once per accepted group, for groups 1..k-1 in order - and InterpolationContext::getPathInterpolants answers every mask in order with exactly one interpolant; '
+            'the front end asks for the path form exactly when there is more than one mask.',
+            'static analysis: path walk of one group-loop iteration (monotone accumulator, append count) + loop-range rules over the mini-AST', ''),
     'C15': ('other',
             'Static: (1) UB-obligation engine - every compiler-inserted sanitizer obligation (signed overflow, narrowing, sign change, float cast) in FastRational.h/.cc is '
             'either deleted by LLVM -O2 range analysis or listed in a table with a written justification and the guards it relies on (guards must still be present); the IR '
@@ -163,7 +169,6 @@ CLAIMED = {
 
 NOT_APPLICABLE = {
     'C08': 'implication/unsat/vocabulary conditions on formulas built from a runtime proof; only a frozen-fragment match could see the labelling rules, which would fire on behaviour-preserving edits',
-    'C09': 'path-interpolation is an implication between runtime formulas; the only structural precondition (mask nesting) is an assert',
     'C11': 'validity in the theory of clauses built from runtime solver state; the one shape-visible clause (positive Farkas coefficients) is claimed under C26',
     'C12': 'propositional consequence of a runtime clause database (RUP) cannot be decided from source shape',
     'C13': 'semantic equisatisfiability of rewrites over all terms needs evaluation or solving, a different technique family',
